@@ -245,8 +245,9 @@ def binding (wb : Workbook) (ignore : List Text) (d : DefName) : Binding :=
 def bindings (wb : Workbook) (ignore : List Text) : List (Text × Binding) :=
   wb.names.map fun d => (d.name, binding wb ignore d)
 
-/-- A cell of the model that no stored cell accounts for may only be an empty placeholder. -/
+/-- A cell of the model that no stored cell accounts for may only be an empty placeholder: no value, no
+    formula. -/
 def isPlaceholder (value : PyVal) (formula : Option Text) : Bool :=
-  (value == .str [] || value == .none) && formula.isNone
+  value == .none && formula.isNone
 
 end XlVerif.Spec.C11
